@@ -1769,3 +1769,28 @@ CHOICE_DEC_INDEF = Contract(
     note='decodeFun, clone and setComponentByType are assumed models')
 CHOICE_DEC_INDEF.multi_value = True
 CONTRACTS = CONTRACTS + [CHOICE_DEC_INDEF]
+
+
+# ---- explicit tag, definite length: the value inside, decoded under the same guide with the tags collected so far --------------
+def _raw_inner(ex, substrate, asn1Spec=None, tagSet=None, length=None, **options):
+    """assumed contract of decodeFun: the value of the element that starts here (or PyAsn1Error)"""
+    if ex.choose(ex.fresh('inner.raises', BoolSort()), 'inner-raises'):
+        raise _Raise(ExcV('PyAsn1Error'))
+    return Obj('Decoded', {'guide': asn1Spec, 'tagSetArg': tagSet, 'lengthArg': length}, name='innerValue')
+
+
+_raw_inner.is_generator_model = True
+RAW_GUIDE = Obj('Asn1Type', {}, name='asn1Spec')
+RAW_DEF = Contract(
+    id='ber.decoder::RawPayloadDecoder.valueDecoder', file=F, qual='RawPayloadDecoder.valueDecoder', is_generator=True,
+    properties=['C13', 'C09', 'C07'],
+    params=dict(self=PObj('RawPayloadDecoder'), substrate=PConst(Obj('Stream', {}, name='substrate')), asn1Spec=PConst(RAW_GUIDE),
+                tagSet=PConst(Obj('TagSet', {}, name='tagSet')), length=PInt(), state=PConst(None),
+                decodeFun=PConst(None), substrateFun=PConst(None), options=POptions()),
+    globals={'guide': RAW_GUIDE}, calls={'decodeFun': _raw_inner},
+    yield_ensures=[('the-inner-value-under-the-same-guide', 'y.guide is guide and y.tagSetArg is tagSet and y.lengthArg == length')],
+    exit_ensures=[('one-result', 'nyields() == 1')],
+    may_raise={'PyAsn1Error': True},
+    note='the tag set passed on is the one accumulated so far (outer explicit tags included): the inner element is matched '
+         'against the guide as a whole')
+CONTRACTS = CONTRACTS + [RAW_DEF]
